@@ -30,6 +30,15 @@ inductive LoadKind
   | zeroMeansDefault         -- if jcfg.F == 0 { cfg.G = DefaultX } else { cfg.G = jcfg.F }
   | pointerOptional          -- if jcfg.F != nil { cfg.G = *jcfg.F }
   | mergo                    -- option struct merged with mergo.WithOverride: zero never overrides
+  | codecAlways              -- x, err := parse(jcfg.F); if err != nil { return err }; cfg.G = x
+  | codecNonEmpty            -- if jcfg.F != "" { …the same… }
+  | codecListAlways          -- l := nil; for _, a := range jcfg.F { x, err := parse(a); if err…; l = append(l, x) }; cfg.G = l
+  | codecListNonEmpty        -- if as := jcfg.F; len(as) > 0 { cfg.G = make(…); for … cfg.G = append(cfg.G, x) }
+  | codecListLenient         -- cfg.G = api.StringsToPeers(jcfg.F): undecodable entries are skipped
+  | peerListStar             -- crdt trusted_peers: "*" ⇒ TrustAll, list emptied, loop left
+  | tlsPath                  -- restapi tlsOptions: pair of paths kept as written, resolved against BaseDir once, key pair loaded
+  | emptyZeroParseDurations  -- if jcfg.F == "" { jcfg.F = "0s" } then a checked ParseDurations entry (cors_max_age)
+  | copyNonEmpty             -- if x := jcfg.F; len(x) > 0 { cfg.G = x }
   | custom
   | none
   deriving DecidableEq, Repr
@@ -40,8 +49,20 @@ inductive SaveKind
   | durString         -- jcfg.F = cfg.G.String()
   | omitIfDefault     -- if cfg.G != DefaultX { jcfg.F = cfg.G }            (F is omitempty)
   | omitIfDefaultDur  -- if cfg.G != DefaultX { jcfg.F = cfg.G.String() }
+  | codecPrint              -- jcfg.F = print(cfg.G)          (String(), Pretty(), EncodeProtectorKey, base64 of Bytes())
+  | codecPrintNonZero       -- if cfg.G != <unset> { jcfg.F = print(cfg.G) }
+  | codecListPrint          -- for _, a := range cfg.G { l = append(l, print(a)) }; jcfg.F = l   (also api.PeersToStrings)
+  | codecListPrintNonEmpty  -- … if len(l) > 0 { jcfg.F = l }
+  | peerListStarPrint       -- if cfg.TrustAll { jcfg.F = ["*"] } else { jcfg.F = PeersToStrings(cfg.G) }
+  | durSeconds              -- jcfg.F = int(cfg.G / time.Second): LOSSY (sub-second part dropped); not in the unchanged tree
   | custom
   | none
+  deriving DecidableEq, Repr
+
+/-- the parse/print pair a codec kind goes through.  `maddr`, `peerID`, `hexSecret`, `base64Key` are library
+functions (trusted: print is injective and parse is its left inverse, like `time.ParseDuration`/`String`);
+`enum` is a closed table read from the sources, for which the left inverse is *proved* over the table. -/
+inductive CodecName | none | maddr | peerID | hexSecret | base64Key | enum
   deriving DecidableEq, Repr
 
 /-- constants as far as they are syntactically evident, and the value tokens of case lines -/
@@ -68,6 +89,9 @@ structure Field where
   dflt : Const          -- value Default() gives the Config field (unknown if not evident)
   omitC : Const         -- the constant an omitIfDefault save compares with
   rej : List (Op × Const)  -- Validate() rejects when `value op const` (simple, unguarded conjuncts only)
+  codec : CodecName := .none
+  dest : String := ""         -- Config field path the value is loaded into
+  hiddenNested : Bool := false  -- a hidden:"true" tag below the top level of the JSON struct (DisplayJSON does not honour it)
   deriving Repr
 
 structure Section where
@@ -88,6 +112,7 @@ def loadScalar [DecidableEq α] (k : LoadKind) (zero cur dflt j : α) : α :=
   | .direct => j
   | .setIfNotDefault => if j = zero then cur else j
   | .mergo => if j = zero then cur else j
+  | .copyNonEmpty => if j = zero then cur else j
   | .zeroMeansDefault => if j = zero then dflt else j
   | .none => cur
   | _ => j
@@ -120,9 +145,11 @@ inductive DurJ | empty | bad | ok (ns : Int)
 def loadDur (k : LoadKind) (cur : Int) : DurJ → Option Int
   | .empty => match k with
       | .parseOrZeroDirect => some 0
+      | .emptyZeroParseDurations => some 0
       | _ => some cur
   | .bad => match k with
       | .parseDurations => Option.none
+      | .emptyZeroParseDurations => Option.none
       | .parseOrZeroDirect => some 0
       | _ => some cur
   | .ok d => match k with
@@ -146,6 +173,110 @@ def parseDurations : List (DurJ × Int) → List Int × Bool
     | .ok d => let r := parseDurations rest; (d :: r.1, r.2)
     | .bad => (cur :: rest.map (·.2), true)
 
+
+/-! ## lossy integer-seconds save (`int(cfg.G / time.Second)`, what `corsOptions` does when it *uses*
+`cors_max_age`; a save written like that would drop the sub-second part) -/
+
+def nsPerSec : Int := 1000000000
+
+/-- Go integer division truncates toward zero -/
+def saveSeconds (v : Int) : Int := v.tdiv nsPerSec
+def loadSeconds (n : Int) : Int := n * nsPerSec
+
+/-! ## settings that travel through a parser and a printer (multiaddresses, peer IDs, keys, the secret, enums)
+
+`J` is the JSON-level value (a string), `C` the Config-level value.  `parse j = none`: the library reports an
+error and `LoadJSON` returns it. -/
+
+structure Codec (J C : Type) where
+  parse : J → Option C
+  print : C → J
+
+/-- the fact the round trip needs: what was parsed prints to something that parses to the same value -/
+def Codec.RoundTrips (cd : Codec J C) : Prop := ∀ j c, cd.parse j = some c → cd.parse (cd.print c) = some c
+
+/-- the stronger library fact (trusted for the library codecs): parse is a left inverse of print -/
+def Codec.LeftInv (cd : Codec J C) : Prop := ∀ c, cd.parse (cd.print c) = some c
+
+/-- one value.  `empty` is the JSON zero value (""), `unset` the Config value meaning "not configured"
+(`nil`, `""`).  Outer `none` = refused. -/
+def loadCodec [DecidableEq J] (k : LoadKind) (cd : Codec J C) (empty : J) (cur : C) (j : J) : Option C :=
+  match k with
+  | .codecAlways => cd.parse j
+  | .codecNonEmpty => if j = empty then some cur else cd.parse j
+  | _ => some cur
+
+def saveCodec [DecidableEq C] (k : SaveKind) (cd : Codec J C) (empty : J) (unset : C) (v : C) : J :=
+  match k with
+  | .codecPrint => cd.print v
+  | .codecPrintNonZero => if v = unset then empty else cd.print v
+  | _ => empty
+
+/-- a list of values, all-or-nothing (`for … { x, err := parse(a); if err != nil { return err } … }`) -/
+def parseList (cd : Codec J C) : List J → Option (List C)
+  | [] => some []
+  | a :: rest => match cd.parse a with
+    | Option.none => Option.none
+    | some c => match parseList cd rest with
+      | Option.none => Option.none
+      | some l => some (c :: l)
+
+def loadCodecList (k : LoadKind) (cd : Codec J C) (cur : List C) (j : List J) : Option (List C) :=
+  match k with
+  | .codecListAlways => parseList cd j
+  | .codecListNonEmpty => if j.isEmpty then some cur else parseList cd j
+  | .codecListLenient => some (j.filterMap cd.parse)
+  | _ => some cur
+
+/-- an `omitempty` empty list and an absent key are the same JSON-level value `[]` -/
+def saveCodecList (_k : SaveKind) (cd : Codec J C) (v : List C) : List J := v.map cd.print
+
+/-- crdt `trusted_peers`: entries are decoded in order; `"*"` sets TrustAll, empties the list and leaves the
+loop (entries after it are not looked at); an undecodable entry before it is an error. -/
+def loadStar [DecidableEq J] (cd : Codec J C) (star : J) : List J → Option (Bool × List C)
+  | [] => some (false, [])
+  | p :: rest =>
+    if p = star then some (true, []) else
+    match cd.parse p with
+    | Option.none => Option.none
+    | some c => match loadStar cd star rest with
+      | Option.none => Option.none
+      | some (true, _) => some (true, [])
+      | some (false, l) => some (false, c :: l)
+
+def saveStar (cd : Codec J C) (star : J) (r : Bool × List C) : List J :=
+  if r.1 then [star] else r.2.map cd.print
+
+/-- a closed enumeration read from a `switch` (load) and a `String()` method (save) -/
+def lookup (t : List (String × String)) (k : String) : Option String := (t.find? (·.1 == k)).map (·.2)
+
+def enumCodec (loadT saveT : List (String × String)) : Codec String String :=
+  { parse := lookup loadT, print := fun c => (lookup saveT c).getD "" }
+
+/-! ## restapi `ssl_cert_file` / `ssl_key_file` (tlsOptions)
+
+Both empty: nothing happens.  Otherwise the two strings are recorded *as written* (`pathSSLCertFile`,
+`pathSSLKeyFile`, which `toJSONConfig` writes back), each is resolved against the base directory once
+(`filepath.IsAbs` / `filepath.Join`), and the pair is loaded (`newTLSConfig`); a failure is returned.
+`fs` stands for the file system: does this resolved pair load? -/
+structure TLSState where
+  cert : String
+  key : String
+  loaded : Bool
+  deriving DecidableEq, Repr
+
+def resolvePath (isAbs : String → Bool) (join : String → String → String) (base p : String) : String :=
+  if isAbs p then p else join base p
+
+def loadTLS (isAbs : String → Bool) (join : String → String → String) (fs : String → String → Bool)
+    (base : String) (cur : TLSState) (cert key : String) : Option TLSState :=
+  if cert ++ key = "" then some cur else
+  if fs (resolvePath isAbs join base cert) (resolvePath isAbs join base key) then
+    some { cert := cert, key := key, loaded := true }
+  else Option.none
+
+def saveTLS (s : TLSState) : String × String := (s.cert, s.key)
+
 /-! ## Validate conjuncts -/
 
 def Op.holds (o : Op) (a b : Int) : Bool :=
@@ -163,6 +294,111 @@ def rejected (rej : List (Op × Const)) (v : Int) : Bool :=
     | some b => o.holds v b
     | Option.none => false
 
+
+/-! ## Validate() of a section as a conjunction over the whole Config
+
+The translator (`harness/common/c15_validate.go`) reads every `Validate()` as a list of conjuncts
+`(guard?, cond)`: the configuration is **rejected** when some conjunct's guard holds (or is absent) and its
+condition holds.  Conditions compare Config fields with constants *and with each other* (`low_water >
+high_water`, the replication factor pair), take `len(x)`, `x.String()`, nil-ness, and combine with `&& || !`;
+helper functions (`isReplicationFactorValid`, `validateLibp2p`) are inlined.  `opaque`: not expressible
+(`hraft.ValidateConfig`, `MatchesPrivateKey`); `opaqueConst`: not expressible but reading nothing a JSON key can
+change (`isRPCPolicyValid(cfg.RPCPolicy)`) — constant over all configuration files, observed not to fire by the
+`default` case of every run.  Evaluation is three-valued. -/
+
+inductive Val
+  | int (i : Int) | str (s : String) | bool (b : Bool) | nil | nonnil
+  | frac (lo hi : Int)   -- a float64 x as (⌊x·10⁶⌋, ⌈x·10⁶⌉)
+  | unknown
+  deriving DecidableEq, Repr
+
+inductive Tm | fld (n : String) | len (n : String) | strOf (n : String) | cst (c : Const)
+  deriving DecidableEq, Repr
+
+inductive Cond
+  | cmp (a : Tm) (o : Op) (b : Tm)
+  | and (a b : Cond) | or (a b : Cond) | not (a : Cond)
+  | tru (n : String)
+  | opaque | opaqueConst
+  deriving DecidableEq, Repr
+
+structure Conj where
+  guard : Option Cond
+  cond : Cond
+  deriving DecidableEq, Repr
+
+abbrev Env := List (String × Val)
+
+def Env.get (e : Env) (k : String) : Val := ((e.find? (·.1 == k)).map (·.2)).getD .unknown
+
+def Tm.eval (e : Env) : Tm → Val
+  | .fld n => e.get ("f:" ++ n)
+  | .len n => e.get ("l:" ++ n)
+  | .strOf n => e.get ("s:" ++ n)
+  | .cst (.int i) => .int i
+  | .cst (.dur i) => .int i
+  | .cst (.str s) => .str s
+  | .cst (.bool b) => .bool b
+  | .cst .nil => .nil
+  | .cst _ => .unknown
+
+def fracScale : Int := 1000000
+
+def cmpVal (o : Op) : Val → Val → Option Bool
+  | .int a, .int b => some (o.holds a b)
+  | .frac lo hi, .int b =>
+    let n := b * fracScale
+    some (match o with
+      | .lt => lo < n | .ge => lo ≥ n | .le => hi ≤ n | .gt => hi > n
+      | .eq => lo == n && hi == n | .ne => !(lo == n && hi == n))
+  | .str a, .str b => (match o with | .eq => some (a == b) | .ne => some (a != b) | _ => Option.none)
+  | .nil, .nil => (match o with | .eq => some true | .ne => some false | _ => Option.none)
+  | .nonnil, .nil => (match o with | .eq => some false | .ne => some true | _ => Option.none)
+  | _, _ => Option.none
+
+def and3 : Option Bool → Option Bool → Option Bool
+  | some false, _ => some false
+  | _, some false => some false
+  | some true, some true => some true
+  | _, _ => Option.none
+
+def or3 : Option Bool → Option Bool → Option Bool
+  | some true, _ => some true
+  | _, some true => some true
+  | some false, some false => some false
+  | _, _ => Option.none
+
+def Cond.eval (e : Env) : Cond → Option Bool
+  | .cmp a o b => cmpVal o (a.eval e) (b.eval e)
+  | .and a b => and3 (a.eval e) (b.eval e)
+  | .or a b => or3 (a.eval e) (b.eval e)
+  | .not a => (a.eval e).map (!·)
+  | .tru n => (match e.get ("f:" ++ n) with | .bool b => some b | _ => Option.none)
+  | .opaque => Option.none
+  | .opaqueConst => some false
+
+/-- does the conjunct reject the configuration? -/
+def Conj.fires (e : Env) (c : Conj) : Option Bool :=
+  match c.guard with
+  | Option.none => c.cond.eval e
+  | some g => and3 (g.eval e) (c.cond.eval e)
+
+inductive Verdict | accept | reject | unknown
+  deriving DecidableEq, Repr
+
+/-- `Validate()`: rejected as soon as one conjunct fires; accepted when every conjunct is known not to -/
+def validate (e : Env) (cs : List Conj) : Verdict :=
+  if cs.any (fun c => c.fires e == some true) then .reject
+  else if cs.all (fun c => c.fires e == some false) then .accept
+  else .unknown
+
+/-- `LoadJSON` of a section: the apply stage either fails (a parse error: `none`) or leaves a Config, whose
+last step is `return cfg.Validate()` (`Section.loadEndsWithValidate`, re-read from the sources on every run) -/
+def loadSection (applied : Option Env) (cs : List Conj) : Option Env :=
+  match applied with
+  | Option.none => Option.none
+  | some e => if validate e cs == .reject then Option.none else some e
+
 /-! ## which kind pairs keep a setting -/
 
 /-- kind pairs for which `Props/C15.lean` proves: load ∘ save ∘ load = load and every non-zero value is
@@ -178,11 +414,23 @@ def lossless : LoadKind → SaveKind → Bool
   | .parseDurations, .omitIfDefaultDur => true
   | .parseOrZeroSIND, .durString => true
   | .parseOrZeroDirect, .durString => true
+  | .emptyZeroParseDurations, .durString => true
+  | .copyNonEmpty, .direct => true
+  | .codecAlways, .codecPrint => true
+  | .codecNonEmpty, .codecPrint => true
+  | .codecNonEmpty, .codecPrintNonZero => true
+  | .codecListAlways, .codecListPrint => true
+  | .codecListNonEmpty, .codecListPrint => true
+  | .codecListNonEmpty, .codecListPrintNonEmpty => true
+  | .codecListLenient, .codecListPrint => true
+  | .peerListStar, .peerListStarPrint => true
+  | .tlsPath, .direct => true
   | _, _ => false
 
 /-- load kinds that cannot write the zero value over a non-zero current value -/
 def zeroBlind : LoadKind → Bool
   | .setIfNotDefault | .mergo | .parseOrZeroSIND | .zeroMeansDefault => true
+  | .copyNonEmpty | .codecNonEmpty | .codecListNonEmpty => true
   | _ => false
 
 /-! ## prediction for one case (driver) -/
@@ -256,15 +504,101 @@ def predictScalar (f : Field) (cur val : Const) : Pred :=
     if f.omitEmpty && s == f.ty.zero then Pred.accept v .absent else Pred.accept v s
   | _ => if f.omitEmpty && v == f.ty.zero then Pred.accept v .absent else Pred.accept v v
 
+/-- kinds whose values are not plain scalars of the case-line token language -/
+def LoadKind.isCodec : LoadKind → Bool
+  | .codecAlways | .codecNonEmpty | .codecListAlways | .codecListNonEmpty | .codecListLenient | .peerListStar
+  | .tlsPath | .copyNonEmpty => true
+  | _ => false
+
 /-- what a load of the default JSON with this one field set to `val` (`cur` = the Config value before the
 apply), followed by `ToJSON`, shows for the field — as far as the row determines it. -/
 def predict (f : Field) (cur val : Const) : Pred :=
   if !(lossless f.load f.save) then Pred.unknown else
+  if f.load.isCodec then Pred.unknown else
   if cur == Const.unknown then Pred.unknown else
   match f.ty with
   | .dur => predictDur f cur val
   | .int | .uint | .bool | .str | .float | .ptrint => predictScalar f cur val
   | _ => Pred.unknown
+
+
+/-! ## config.Manager: a whole configuration file (config/config.go LoadJSON / ToJSON / ToDisplayJSON)
+
+After `json.Unmarshal` a file is: the `cluster` object (a nil pointer when the key is absent or `null`) and, per
+section group (`consensus`, `api`, …), a Go map component-name → raw JSON (`nil` for `"name": null`; an absent
+or `null` group is the empty map; a group of another JSON type is refused by `Unmarshal` and is not a `File`;
+top-level keys other than `source`, `cluster` and the ten groups are dropped by `Unmarshal`).  Duplicate keys:
+the last one wins (`lookupLast`).  The Manager keeps the parsed file (`jsonCfg`) and `ToJSON` writes every
+*registered* component into it — so unknown component names are **kept** verbatim, registered components that
+the file did not define are **written** with their defaults, and `ToDisplayJSON` starts from an empty file — so
+unknown components are **not displayed**.  `DisplayJSON` masks the top-level fields tagged `hidden:"true"`.
+
+`σ`: a component's Config; `V`: JSON values.  Registered components are given as a partial function
+group → name → spec, files and Manager states likewise (Go maps); `Loads` is a relation. -/
+namespace Mgr
+
+abbrev CompJ (V : Type) := List (String × V)
+
+structure CompSpec (σ V : Type) where
+  load : CompJ V → Option σ     -- LoadJSON (Default(), apply, Validate); none = error
+  dflt : σ
+  save : σ → CompJ V
+  hidden : List String          -- top-level keys tagged hidden:"true"
+
+inductive Entry (V : Type) | null | obj (j : CompJ V)
+
+structure File (V : Type) where
+  cluster : Option (CompJ V)
+  entry : String → String → Option (Entry V)
+
+structure Reg (σ V : Type) where
+  cluster : CompSpec σ V
+  spec : String → String → Option (CompSpec σ V)
+
+structure State (σ V : Type) where
+  cluster : Option σ            -- none: the cluster section was never loaded (does not validate)
+  comp : String → String → Option σ
+  raw : File V
+
+/-- duplicate keys of a JSON object: the last one wins -/
+def lookupLast (l : List (String × α)) (k : String) : Option α := (l.reverse.find? (·.1 == k)).map (·.2)
+
+/-- `Manager.LoadJSON` of a plain file on a Manager in state `prev` accepts and ends in state `s` -/
+def Loads (r : Reg σ V) (prev : State σ V) (f : File V) (s : State σ V) : Prop :=
+  (match f.cluster with
+    | none => s.cluster = prev.cluster
+    | some j => ∃ c, r.cluster.load j = some c ∧ s.cluster = some c) ∧
+  s.cluster ≠ none ∧
+  (∀ g n, match r.spec g n with
+    | none => s.comp g n = none
+    | some sp => match f.entry g n with
+      | none => s.comp g n = some sp.dflt
+      | some .null => False
+      | some (.obj j) => ∃ x, sp.load j = some x ∧ s.comp g n = some x) ∧
+  s.raw = f
+
+/-- `Manager.ToJSON` (no source set): refuses when the cluster section does not validate -/
+def saved (r : Reg σ V) (s : State σ V) : Option (File V) :=
+  match s.cluster with
+  | none => none
+  | some c => some
+    { cluster := some (r.cluster.save c),
+      entry := fun g n => match r.spec g n, s.comp g n with
+        | some sp, some x => some (.obj (sp.save x))
+        | _, _ => s.raw.entry g n }
+
+/-- `config.DisplayJSON`: top-level hidden fields replaced by a constant -/
+def mask (hidden : List String) (maskV : V) (j : CompJ V) : CompJ V :=
+  j.map fun kv => if hidden.contains kv.1 then (kv.1, maskV) else kv
+
+/-- `Manager.ToDisplayJSON`: starts from an empty file, writes the masked form of every registered component -/
+def display (r : Reg σ V) (maskV : V) (s : State σ V) : File V :=
+  { cluster := s.cluster.map fun c => mask r.cluster.hidden maskV (r.cluster.save c),
+    entry := fun g n => match r.spec g n, s.comp g n with
+      | some sp, some x => some (.obj (mask sp.hidden maskV (sp.save x)))
+      | _, _ => none }
+
+end Mgr
 
 /-! ## config.Manager and the remote `source` of a configuration (config/config.go:355-475, 496-515)
 
